@@ -292,17 +292,38 @@ func orderInsensitive(info *types.Info, fd *ast.FuncDecl, rs *ast.RangeStmt) (bo
 	// test and continue): order-insensitive iff at most one entry matches, i.e. the entries are pairwise
 	// distinct under f. That is an assumption about the map's contents, recorded with the function it names.
 	if cond, ok := firstMatchCond(rs); ok {
+		// variables the if statement defines from the element (v := m[k]) stand for the element too
+		elemVars := map[types.Object]bool{}
+		if is, ok := rs.Body.List[0].(*ast.IfStmt); ok && is.Init != nil {
+			if as, ok := is.Init.(*ast.AssignStmt); ok && as.Tok == token.DEFINE && len(as.Lhs) == len(as.Rhs) {
+				for i, l := range as.Lhs {
+					mentions := false
+					ast.Inspect(as.Rhs[i], func(n ast.Node) bool {
+						if id, ok := n.(*ast.Ident); ok && (sameIdent(info, id, rs.Key) || sameIdent(info, id, rs.Value)) {
+							mentions = true
+						}
+						return true
+					})
+					if lid, ok := l.(*ast.Ident); ok && mentions {
+						elemVars[info.ObjectOf(lid)] = true
+					}
+				}
+			}
+		}
+		isElem := func(id *ast.Ident) bool {
+			return sameIdent(info, id, rs.Key) || sameIdent(info, id, rs.Value) || elemVars[info.ObjectOf(id)]
+		}
 		if be, ok := ast.Unparen(cond).(*ast.BinaryExpr); ok && (be.Op == token.EQL || be.Op == token.NEQ) {
 			for _, pair := range [][2]ast.Expr{{be.X, be.Y}, {be.Y, be.X}} {
 				usesElem, usesOther := false, false
 				ast.Inspect(pair[0], func(n ast.Node) bool {
-					if id, ok := n.(*ast.Ident); ok && (sameIdent(info, id, rs.Key) || sameIdent(info, id, rs.Value)) {
+					if id, ok := n.(*ast.Ident); ok && isElem(id) {
 						usesElem = true
 					}
 					return true
 				})
 				ast.Inspect(pair[1], func(n ast.Node) bool {
-					if id, ok := n.(*ast.Ident); ok && (sameIdent(info, id, rs.Key) || sameIdent(info, id, rs.Value)) {
+					if id, ok := n.(*ast.Ident); ok && isElem(id) {
 						usesOther = true
 					}
 					return true
@@ -326,7 +347,7 @@ func orderInsensitive(info *types.Info, fd *ast.FuncDecl, rs *ast.RangeStmt) (bo
 func firstMatchCond(rs *ast.RangeStmt) (ast.Expr, bool) {
 	l := rs.Body.List
 	if len(l) == 1 {
-		if is, ok := l[0].(*ast.IfStmt); ok && is.Init == nil && is.Else == nil && len(is.Body.List) == 1 {
+		if is, ok := l[0].(*ast.IfStmt); ok && is.Else == nil && len(is.Body.List) == 1 {
 			if _, ok := is.Body.List[0].(*ast.ReturnStmt); ok {
 				return is.Cond, true
 			}
